@@ -305,6 +305,14 @@ class NestedChildren(WrappingQuery):
         # sub-query, so they are not known to have a term in its field
         return None
 
+    def estimate_size(self, ixreader):
+        # Every matching parent can contribute any number of children, so the
+        # size of the parent query is not an upper bound
+        return ixreader.doc_count()
+
+    def estimate_min_size(self, ixreader):
+        return 0
+
     def matcher(self, searcher, context=None):
         bits = searcher._filter_to_comb(self.parents)
         if not bits:
